@@ -156,7 +156,12 @@ Definition resolve (r : reg) (s : string) : res udef :=
       | (p, u) :: _ =>
           if String.eqb p "" then
             match r_units r !! u with Some d => Ok d | None => Err EKey end
-          else prefixed_def r p u
+          else
+            (* since the repair of F46 a written definition named prefix+unit is never replaced *)
+            match r_units r !! (p ++ u) with
+            | Some d => Ok d
+            | None => prefixed_def r p u
+            end
       end
   end.
 Definition get_name (r : reg) (s : string) : res string :=
